@@ -43,6 +43,7 @@ func gcCheck(dir string) {
 	w.ln("func (hostT) Call(f func()) { f() }")
 	w.ln("type MyErr struct{}")
 	w.ln("func (MyErr) Error() string { return \"myErr-msg\" }")
+	w.ln("type S struct { X int; P *S }")
 	w.ln("type MyStr struct{}")
 	w.ln("func (MyStr) String() string { return \"myStr-msg\" }")
 	type cs struct {
@@ -52,10 +53,10 @@ func gcCheck(dir string) {
 	}
 	var cases []cs
 	for _, f := range families(tier) {
-		if f.layout != lProgram {
+		if f.layout != lProgram || (os.Getenv("C12_GCFAMILY") != "" && !strings.HasPrefix(f.name, os.Getenv("C12_GCFAMILY"))) {
 			continue
 		}
-		size := kit.Product(numActions, numSites, uint64(len(f.cfgs)))
+		size := kit.Product(uint64(len(f.actionList())), numSites, uint64(len(f.cfgs)))
 		for i := uint64(0); i < size; i++ {
 			sh := shapeAt(f, i)
 			if !sh.applicable() {
@@ -76,7 +77,7 @@ func gcCheck(dir string) {
 	w.ln("\tcases[n]()")
 	w.ln("\tfmt.Println(\"END\")")
 	w.ln("}")
-	src := strings.NewReplacer("host.MyErr{}", "MyErr{}", "host.MyStr{}", "MyStr{}").Replace(w.b.String())
+	src := strings.NewReplacer("host.MyErr{}", "MyErr{}", "host.MyStr{}", "MyStr{}", "host.S{", "S{", "*host.S", "*S", "(host.S)", "(S)").Replace(w.b.String())
 	os.WriteFile(filepath.Join(dir, "main.go"), []byte(src), 0o644)
 	os.WriteFile(filepath.Join(dir, "go.mod"), []byte("module gccheck\ngo 1.25\n"), 0o644)
 	cmd := exec.Command("go", "build", "-gcflags=-N -l", "-o", "gccheck.bin", ".")
